@@ -30,13 +30,40 @@ Theorem C08_padata_skip_lower : forall req s h s',
 Proof. exact pa_step_skip_lower. Qed.
 Print Assumptions C08_padata_skip_lower.
 
-(* the derived key does not depend on the order of the three hints (all subsets, all permutations),
-   when the etype-carrying hints name the requested etype *)
+(* the derived key does not depend on the order of the hints (at most one of each type, naming supported etypes -
+   which may differ from each other and from the etype requested) *)
 Theorem C08_padata_order_irrelevant : forall pw names realm req hs hs',
-  hints_simple req hs -> Permutation.Permutation hs hs' ->
+  hints_simple hs -> Permutation.Permutation hs hs' ->
   key_from_password pw names realm req hs = key_from_password pw names realm req hs'.
 Proof. exact padata_order_irrelevant. Qed.
 Print Assumptions C08_padata_order_irrelevant.
+
+(* RFC 4120 5.2.7.5: an ETYPE-INFO2 hint, wherever it stands, alone decides etype, salt and parameters (its own, or
+   the defaults of the etype it names) *)
+Theorem C08_padata_info2_decides : forall req s0 hs e sl p0 es,
+  hints_simple hs -> ps_id s0 <= 19 -> ps_params s0 = default_s2kparams (ps_et s0) ->
+  In (HInfo2 ((e, sl, p0) :: es)) hs ->
+  pa_fold req s0 hs = Ok (mkPS e sl (info2_params p0 (default_s2kparams e)) 19).
+Proof. exact padata_info2_decides. Qed.
+Print Assumptions C08_padata_info2_decides.
+
+(* ... without one, an ETYPE-INFO hint decides etype and salt, whatever PW-SALT says and wherever it stands *)
+Theorem C08_padata_info_decides : forall req s0 hs e sl es,
+  hints_simple hs -> ps_id s0 <= 11 -> ps_params s0 = default_s2kparams (ps_et s0) ->
+  In (HInfo ((e, sl) :: es)) hs -> (forall es2, ~ In (HInfo2 es2) hs) ->
+  pa_fold req s0 hs = Ok (mkPS e sl (default_s2kparams e) 11).
+Proof. exact padata_info_decides. Qed.
+Print Assumptions C08_padata_info_decides.
+
+(* The code as pinned (before repair eb1c1ad) compared a hint's etype with the REQUESTED etype: ETYPE-INFO naming 23
+   followed by ETYPE-INFO2 naming the requested 17 left 23 selected; the other order selected 17.  Witness: *)
+Theorem C08_padata_pinned_order_matters_refuted :
+  let hs := [HInfo [(23, [2])]; HInfo2 [(17, [3], Some [0;0;0;5])]] in
+  hints_simple hs /\ Permutation.Permutation hs (rev hs) /\
+  pa_fold_pinned 17 (mkPS 17 [] (default_s2kparams 17) 0) hs <> pa_fold_pinned 17 (mkPS 17 [] (default_s2kparams 17) 0) (rev hs) /\
+  pa_fold 17 (mkPS 17 [] (default_s2kparams 17) 0) hs = pa_fold 17 (mkPS 17 [] (default_s2kparams 17) 0) (rev hs).
+Proof. exact padata_pinned_order_matters_refuted. Qed.
+Print Assumptions C08_padata_pinned_order_matters_refuted.
 
 (* generated keys: the length gokrb5 generates is the length encryption demands *)
 Theorem C08_generated_key_usable : forall et key usage conf msg,
